@@ -489,7 +489,10 @@ RunPre(cfg, pre, k, st) ==
 Eval(cfg, pre, words) ==
    LET s0 == RunPre(cfg, pre, 1, InitState(cfg)) IN
    IF s0.out # "run" THEN s0
-   ELSE LET s1 == RunWords(cfg, words, [s0 EXCEPT !.last = 0], TRUE) IN
+   \* the "last argument" carries over from the file lines / environment into argv: a multi-value argument
+   \* that ends a file line still takes free values from the next line or from the command line, exactly as if
+   \* all words had been given on the command line
+   ELSE LET s1 == RunWords(cfg, words, s0, TRUE) IN
         IF s1.out = "eol" THEN EndChecks(cfg, [s1 EXCEPT !.out = "run"]) ELSE s1
 
 Outcome(st) == IF st.out = "ok" THEN "ok" ELSE IF st.out = "undef" THEN "undef" ELSE "err"
